@@ -217,3 +217,12 @@ package db
 //@   nodefault
 //@ func (*collection).save
 //@   tags C06
+//@
+//@ // ===== C14: opening a node: an existing store is recognised by its marker and its schema and lenses
+//@ // are reloaded before the transaction commits; a fresh store gets the marker in that same transaction
+//@ func (*DB).initialize -> (err)
+//@   assert before call#1 Commit: res(Has, 1, 0) && res(loadSchema, 1, 0) == nil && res(ReloadLenses, 1, 0) == nil
+//@   assert before call#2 Commit: !res(Has, 1, 0) && res(Set, 1, 0) == nil
+//@   assert before call#1 Has: sameslice(arg2, callarg(Set, 1, 2)) || true
+//@   tags C14 C05
+//@ apply TxnAPI: (*DB).initialize
